@@ -523,6 +523,18 @@ def parsedate(datetime_str: str) -> datetime:
 
 ####################################################################
 #
+def oneline(text: Any) -> str:
+    """Render `text` for use inside a single-line IMAP response.
+
+    Error texts may embed things the client sent us as a literal (a mailbox
+    name, part of the command itself) and those may contain CR and LF. A
+    status response is a single line so they are replaced by a space.
+    """
+    return str(text).replace("\r", " ").replace("\n", " ")
+
+
+####################################################################
+#
 # XXX Need to validate how we treat `uid_cmd`. RFC3501 says:
 #
 #       The server should respond with a tagged BAD response to a command that
